@@ -172,6 +172,35 @@ pub fn run(env: &Env, run: &Run) -> (Stats, Coverage) {
             st.merge(s);
         }
     }
+    // canonically equivalent spellings of every decomposable character, next to its own base
+    // character: all ordered pairs within each group
+    {
+        let groups = crate::props::rules::decomposition_groups(env);
+        let shards: Vec<Stats> = groups
+            .par_iter()
+            .map(|g| {
+                let mut st = Stats::default();
+                st.states += 1;
+                for p in Prof::ALL {
+                    let canons: Vec<Expect> = g.iter().map(|s| canon(env, p, s)).collect();
+                    for i in 0..g.len() {
+                        for j in 0..g.len() {
+                            st.transitions += 1;
+                            let got = check_pair(p, &g[i], &g[j], &canons[i], &canons[j], &mut st);
+                            if got == OutB::Ok(true) && i != j {
+                                st.nontrivial += 1;
+                            }
+                        }
+                    }
+                }
+                st.count("out:decomposition-group");
+                st
+            })
+            .collect();
+        for s in shards {
+            st.merge(s);
+        }
+    }
     for p in Prof::ALL {
         let canons: Vec<Expect> = strs.par_iter().map(|s| canon(env, p, s)).collect();
         let shards: Vec<Stats> = (0..strs.len())
@@ -266,7 +295,7 @@ pub fn run(env: &Env, run: &Run) -> (Stats, Coverage) {
     st.sample(json!({"profile": "UsernameCaseMapped", "a": ["U+0009"], "b": ["U+0378"], "expected": "Err(BadCodepoint{0x9,0,Disallowed}) - the first operand's error"}));
     st.sample(json!({"profile": "OpaqueString", "a": ["e", "U+0301"], "b": ["U+00E9"], "expected": "Ok(true)"}));
     let cov = Coverage {
-        rule: format!("all ordered pairs of the {} strings of length <= {} over 25 symbols (plus all strings one longer over the first 12 (quick) / 8 (thorough) interaction symbols) (case, width, spacing, canonical and compatibility variants of the same names, invalid strings) x 4 profiles, plus all ordered pairs of a, A, U+00E9, U+65E5 each repeated k times for k around 2^7, 2^8, 2^9, 2^10, 2^16 (length layer), plus, for every string, all ordered pairs of its sub-slices presented as two slices of ONE buffer (aliased operands: shared start, shared end, overlapping, identical); oracle: usernames/OpaqueString = the implementation's own enforce on each operand (first operand's error first), Nickname = reference comparison pipeline (validate, space rule, lowercase, NFKC, iterated per RFC 8264 s.7); reflexivity/symmetry/transitivity checked directly on the first {} strings (all triples); non-trivial = distinct strings that compare equal", strs.len(), n, strs.len().min(run.tier.pick(150, 400))),
+        rule: format!("all ordered pairs of the {} strings of length <= {} over 25 symbols (plus all strings one longer over the first 12 (quick) / 8 (thorough) interaction symbols) (case, width, spacing, canonical and compatibility variants of the same names, invalid strings) x 4 profiles, plus all ordered pairs of a, A, U+00E9, U+65E5 each repeated k times for k around 2^7, 2^8, 2^9, 2^10, 2^16 (length layer), plus all ordered pairs of the canonically equivalent spellings of every decomposable character in 4 contexts, plus, for every string, all ordered pairs of its sub-slices presented as two slices of ONE buffer (aliased operands: shared start, shared end, overlapping, identical); oracle: usernames/OpaqueString = the implementation's own enforce on each operand (first operand's error first), Nickname = reference comparison pipeline (validate, space rule, lowercase, NFKC, iterated per RFC 8264 s.7); reflexivity/symmetry/transitivity checked directly on the first {} strings (all triples); non-trivial = distinct strings that compare equal", strs.len(), n, strs.len().min(run.tier.pick(150, 400))),
         alphabet: json!(sigma.iter().map(|c| format!("U+{:04X}", *c as u32)).collect::<Vec<_>>()),
         bound_completed: format!("{} strings, {} ordered pairs x 4 profiles", strs.len(), strs.len() * strs.len()),
         exhaustive: false,
